@@ -144,6 +144,96 @@ def k21_match_overrides(ctx, pid: str):
     r.floor("K21.match-override", 4)
 
 
+def warning_filter_rule(ctx, rule: str):
+    """The UnusedModules warning must reach the caller: no warning filter
+    between the walk and the caller may ignore a category that covers it."""
+    p = ctx.program
+    r = ctx.report
+    unused = p.get_class("moclo.errors.UnusedModules")
+    n = 0
+    for qn in ("moclo.core._assembly.AssemblyManager.assemble", "moclo.core._assembly.AssemblyManager._generate_assembly",
+               "moclo.core.vectors.AbstractVector.assemble"):
+        fi = p.get_func(qn)
+        sites = []
+        for d in fi.node.decorator_list:
+            if isinstance(d, ast.Call) and isinstance(d.func, (ast.Name, ast.Attribute)) and (getattr(d.func, "id", None) == "catch_warnings" or getattr(d.func, "attr", None) == "catch_warnings"):
+                sites.append(d)
+        for node in ast.walk(fi.node):
+            if isinstance(node, ast.Call) and isinstance(node.func, ast.Attribute) and node.func.attr in ("simplefilter", "filterwarnings"):
+                sites.append(node)
+        for d in sites:
+            n += 1
+            action = d.args[0].value if d.args and isinstance(d.args[0], ast.Constant) else None
+            cat = None
+            for kw in d.keywords:
+                if kw.arg == "category":
+                    cat = kw.value
+            if cat is None and len(d.args) > 1:
+                cat = d.args[1]
+            covers = True  # default category is Warning
+            shown = "Warning (default)"
+            if cat is not None:
+                c = p.resolve_expr(fi.module, cat)
+                shown = fi.module.segment(cat)
+                if isinstance(c, ClassInfo):
+                    covers = p.is_subclass(unused, c)
+                elif isinstance(c, Ext):
+                    covers = c.dotted in ("builtins.Warning", "builtins.UserWarning", "builtins.Exception", "builtins.BaseException")
+                else:
+                    covers = True
+            ok = not (action in ("ignore", "once", "module", "default", None) and covers) or action in ("always", "error") and False
+            if action in ("always",):
+                ok = True
+            r.ob(rule, "%s@%s" % (qn, re.sub(r"\W+", "", fi.module.segment(d) or "")[:50]), ok,
+                 "a warning filter with action %r and category %s covers UnusedModules: the warning naming the modules left out would not reach the caller" % (action, shown),
+                 "%s:%d" % (fi.module.relpath, d.lineno))
+    # the helper behind the decorator forwards the category it was given
+    cw = p.get_func("moclo._utils.catch_warnings")
+    calls = [x for x in ast.walk(cw.node) if isinstance(x, ast.Call) and isinstance(x.func, ast.Attribute) and x.func.attr in ("simplefilter", "filterwarnings")]
+    ok = len(calls) == 1
+    if ok:
+        c = calls[0]
+        a0 = c.args[0] if c.args else next((k.value for k in c.keywords if k.arg == "action"), None)
+        a1 = c.args[1] if len(c.args) > 1 else next((k.value for k in c.keywords if k.arg == "category"), None)
+        ok = isinstance(a0, ast.Name) and a0.id == "action" and isinstance(a1, ast.Name) and a1.id == "category"
+    r.ob(rule, "moclo._utils.catch_warnings#forwarding", ok,
+         "the catch_warnings helper must install exactly the filter it was asked for (action, category): `%s`" % (re.sub(r"\s+", " ", cw.module.segment(calls[0]) or "") if calls else "no filter call"), cw.where())
+    r.floor(rule, 1)
+
+
+def error_carriers_rule(ctx, rule: str):
+    """The MoClo exceptions carry what they were given: evaluated abstractly,
+    each constructor stores its arguments unchanged in the documented attribute."""
+    p = ctx.program
+    table = (("DuplicateModules", "duplicates", "all"), ("MissingModule", "start_overhang", 0), ("UnusedModules", "remaining", "all"),
+             ("InvalidSequence", "sequence", 0), ("IllegalSite", "sequence", 0))
+    for cname, attr, which in table:
+        ci = p.get_class("moclo.errors." + cname)
+        owner, init = p.class_attr_def(ci, "__init__")
+        if not isinstance(init, FuncInfo):
+            raise AnalysisError("anchor vanished: moclo.errors.%s.__init__" % cname)
+        A, B = Term("arg0"), Term("arg1")
+        nargs = 2 if which == "all" else 1
+
+        def make_args(I, ci=ci):
+            obj = AObj(ci, {}, name="exc")
+            I.exc = obj
+            return ((obj, A, B) if nargs == 2 else (obj, A)), {"details": "d"}
+
+        def post(I, o, attr=attr, which=which, cname=cname, init=init):
+            got = I.exc.attrs.get(attr)
+            if isinstance(got, AList):
+                got = tuple(got.items)
+            if isinstance(got, list):
+                got = tuple(got)
+            want = (A, B) if which == "all" else A
+            return [(rule, "moclo.errors.%s#%s" % (cname, attr), o.kind == "return" and got == want,
+                     "%s(%s) must keep its argument(s) in .%s unchanged, got %r" % (cname, "a, b" if which == "all" else "a", attr, got))]
+
+        emit(ctx, run_paths(ctx, init, make_args, [], post=post), init.where())
+    ctx.report.floor(rule, 5)
+
+
 def text_consumers_rule(ctx, rule: str):
     """DNARegex.search: the text derived from the target is consumed only by
     the compiled pattern (regex.match), len(), doubling and slicing.  Any other
